@@ -220,7 +220,11 @@ def gen_case(rng, pid, tier):
                     # another rack; 'rack:9' is a bucket that does not exist (unloadable record)
                     spec['parent'] = rng.choice(racks + racks + ['rack:9'])
                 servers[str(s)] = spec
-                ops.append(['server', s, spec, rng.random() < 0.8])
+                if rng.random() < 0.08:
+                    # ... and the changed record is deleted by an admin while the master is reloading it
+                    ops.append(['server', s, spec, True, 'vanish'])
+                else:
+                    ops.append(['server', s, spec, rng.random() < 0.8])
         elif r < 0.66:
             ops.append(['allocs', _allocs(rng, parts) if rng.random() < 0.8 else []])
         elif r < 0.72:
@@ -877,6 +881,17 @@ def _install(w):
             had_apps = bool(cur.apps) if cur is not None else False
             data = self.backend.get_default(z.path.server(servername))
             c0, a0, rs0 = len(w.created), len(w.adj_log), len(w.restore_log)
+            if getattr(w, 'vanish_server', None) == servername:
+                # the record is deleted by an admin between the two reads reload_server makes of it
+                w.vanish_server = None
+                self.backend.zkclient.vanish_on_read = z.path.server(servername)
+                w.run.tags.add('server-record-vanished-during-reload')
+                w.in_reload += 1
+                try:
+                    return orig(self, servername)
+                finally:
+                    w.in_reload -= 1
+                    self.backend.zkclient.vanish_on_read = None
             w.in_reload += 1
             try:
                 r = orig(self, servername)
@@ -1981,7 +1996,7 @@ def _apply(case, pid, run, w, op):
                 # instances are governed by their retention timeout from now on
                 _hit(run, 'presence-lost-but-not-down', 'adjust_presence', '%s is %s' % (sname(sid), s_.state.value))
     elif k == 'server':
-        _, sid, spec, listed = op
+        _, sid, spec, listed = op[:4]
         if spec is None:
             if '/servers/' + sname(sid) not in w.store.nodes:
                 return
@@ -1990,6 +2005,9 @@ def _apply(case, pid, run, w, op):
         else:
             _put_server(w, sid, spec)
             w.stats['reload'] += 1
+            if len(op) > 4 and op[4] == 'vanish' and sname(sid) in w.m.servers and w.m.servers[sname(sid)].apps:
+                w.vanish_server = sname(sid)
+                listed = True
         path = _post_event_node(w, 'servers', [sname(sid)] if listed else [])
         guarded('event:servers', lambda: w.m.process_events(w.store.children('/events')))
         del path
